@@ -90,16 +90,30 @@ var kernelList = []kernelSpec{
 	{"x/mint/types", "Minter", "CurrentPhase"},
 	{"x/mint/types", "Minter", "BlockProvisions"},
 	{"x/mint/types", "Minter", "AnnualProvisions"},
+	{"x/mint/types", "", "validateBlocksPerYear"},
+	{"x/mint/types", "", "validatePhases"},
+	{"x/mint/types", "", "validateExcludeAmount"},
+	{"x/mint/types", "Params", "Validate"},
+	{"x/bet/types", "", "validateBatchSettlementCount"},
+	{"x/bet/types", "", "validateMaxBetByUIDQueryCount"},
+	{"x/bet/types", "", "validateConstraints"},
+	{"x/bet/types", "Params", "Validate"},
 }
 
 // structs that only occur as parameters
-var extraStructs = []kernelSpec{{"x/mint/types", "Phase", ""}, {"x/ovm/types", "Vote", ""}, {"x/market/types", "Odds", ""}}
+// functions taken to succeed: what they check is not modelled (denomination strings)
+var assumeOK = []kernelSpec{{"x/mint/types", "", "validateMintDenom"}}
+
+var extraStructs = []kernelSpec{{"x/bet/types", "Constraints", ""}, {"x/mint/types", "Phase", ""}, {"x/ovm/types", "Vote", ""}, {"x/market/types", "Odds", ""}}
 
 type ktrans struct {
 	w       *world
 	structs map[string]*types.Named // Go type name -> named struct (whitelisted receivers)
 	order   []string
-	spec    map[string]bool // "Type.method" whitelisted
+	spec    map[string]bool            // "Type.method" whitelisted (Go names; informational)
+	gname   map[*types.TypeName]string // whitelisted struct -> its Gallina name (the Go name, prefixed by the module on a clash)
+	fn      map[*types.Func]string     // whitelisted function / method -> the Gallina name of its translation
+	assume  map[*types.Func]bool       // functions taken to succeed (not modelled)
 	out     strings.Builder
 	errs    []string
 }
@@ -128,11 +142,31 @@ func (k *ktrans) structOf(t types.Type) string {
 		t = p.Elem()
 	}
 	if n, ok := t.(*types.Named); ok {
-		if _, ok := k.structs[n.Obj().Name()]; ok && strings.HasPrefix(n.Obj().Pkg().Path(), repoModule) {
-			return n.Obj().Name()
+		if g, ok := k.gname[n.Obj()]; ok {
+			return g
 		}
 	}
 	return ""
+}
+
+// register a struct type under a Gallina name: its Go name, or <module><Name> when another package's type has taken that name
+func (k *ktrans) register(named *types.Named) string {
+	if g, ok := k.gname[named.Obj()]; ok {
+		return g
+	}
+	g := named.Obj().Name()
+	if _, clash := k.structs[g]; clash {
+		parts := strings.Split(strings.TrimPrefix(named.Obj().Pkg().Path(), repoModule+"/"), "/")
+		mod := parts[0]
+		if mod == "x" && len(parts) > 1 {
+			mod = parts[1]
+		}
+		g = mod + g
+	}
+	k.gname[named.Obj()] = g
+	k.structs[g] = named
+	k.order = append(k.order, g)
+	return g
 }
 
 // galType: "Z", "bool", "G_<T>", or "" (unsupported); lenField: the value is a slice represented by its length.
@@ -457,10 +491,20 @@ func (c *fctx) call(e *ast.CallExpr) string {
 	}
 	switch f := e.Fun.(type) {
 	case *ast.Ident:
-		if fn, ok := c.info.Uses[f].(*types.Func); ok && fn.Pkg() != nil && c.k.spec["."+fn.Name()] {
-			return fmt.Sprintf("(K__%s %s)", fn.Name(), strings.Join(args, " "))
+		if fn, ok := c.info.Uses[f].(*types.Func); ok && fn.Pkg() != nil {
+			if g, ok := c.k.fn[fn]; ok {
+				return fmt.Sprintf("(%s %s)", g, strings.Join(args, " "))
+			}
+			if c.k.assume[fn] {
+				return "true"
+			}
 		}
 		if f.Name == "len" && len(e.Args) == 1 {
+			if _, isSel := e.Args[0].(*ast.SelectorExpr); !isSel {
+				if gt, _ := c.k.galType(c.info.TypeOf(e.Args[0])); strings.HasPrefix(gt, "list ") {
+					return fmt.Sprintf("(klen %s)", args[0])
+				}
+			}
 			if se, ok := e.Args[0].(*ast.SelectorExpr); ok {
 				if s := c.k.structOf(c.info.TypeOf(se.X)); s != "" {
 					if gt, _ := c.k.galType(c.info.TypeOf(se)); strings.HasPrefix(gt, "list ") {
@@ -540,8 +584,10 @@ func (c *fctx) call(e *ast.CallExpr) string {
 		}
 		// method of a whitelisted struct
 		if s := c.k.structOf(c.info.TypeOf(f.X)); s != "" {
-			if c.k.spec[s+"."+f.Sel.Name] {
-				return fmt.Sprintf("(K_%s_%s %s)", s, f.Sel.Name, strings.Join(append([]string{c.expr(f.X)}, args...), " "))
+			if fn, ok := c.info.Uses[f.Sel].(*types.Func); ok {
+				if g, ok := c.k.fn[fn]; ok {
+					return fmt.Sprintf("(%s %s)", g, strings.Join(append([]string{c.expr(f.X)}, args...), " "))
+				}
 			}
 			return c.fail("method %s.%s is not whitelisted", s, f.Sel.Name)
 		}
@@ -576,6 +622,21 @@ func (c *fctx) ret(s *ast.ReturnStmt) string {
 				return fmt.Sprintf("Some %s", ident(c.recvName))
 			}
 			return "true"
+		}
+		if len(s.Results) == 1 && !c.mutating {
+			// return f(x) where f is a translated function returning only an error
+			if call, ok := s.Results[0].(*ast.CallExpr); ok {
+				var fn *types.Func
+				switch f := call.Fun.(type) {
+				case *ast.Ident:
+					fn, _ = c.info.Uses[f].(*types.Func)
+				case *ast.SelectorExpr:
+					fn, _ = c.info.Uses[f.Sel].(*types.Func)
+				}
+				if fn != nil && (c.k.fn[fn] != "" || c.k.assume[fn]) {
+					return c.expr(call)
+				}
+			}
 		}
 		if c.mutating {
 			return "None"
@@ -801,7 +862,13 @@ func (c *fctx) stmts(list []ast.Stmt) string {
 		// for _, v := range E { body }   ==>   a fold over the list E carrying the variables the body assigns and a "broke out" flag
 		if s.Key != nil {
 			if id, ok := s.Key.(*ast.Ident); !ok || id.Name != "_" {
-				return c.fail("range loop using the index")
+				// for i := range xs: the indices only
+				if ok && s.Value == nil {
+					if gt, _ := c.k.galType(c.info.TypeOf(s.X)); strings.HasPrefix(gt, "list ") {
+						return c.loopOver(s.Body, ident(id.Name), fmt.Sprintf("(kseq (klen %s))", c.expr(s.X)), list[1:])
+					}
+				}
+				return c.fail("range loop using the index and the value")
 			}
 		}
 		vname := "g__unused"
@@ -831,6 +898,19 @@ func (c *fctx) stmts(list []ast.Stmt) string {
 		return c.stmts(append(append([]ast.Stmt{}, s.List...), list[1:]...))
 	case *ast.IfStmt:
 		if s.Init != nil {
+			// if err := f(x); err != nil { body }   (f returns only an error: its translation is a bool, true = nil)
+			if as, ok := s.Init.(*ast.AssignStmt); ok && as.Tok == token.DEFINE && len(as.Lhs) == 1 && len(as.Rhs) == 1 && s.Else == nil {
+				if id, ok := as.Lhs[0].(*ast.Ident); ok {
+					if be, ok := s.Cond.(*ast.BinaryExpr); ok && be.Op == token.NEQ && isNilIdent(be.Y) {
+						if x, ok := be.X.(*ast.Ident); ok && x.Name == id.Name && c.info.TypeOf(as.Rhs[0]).String() == "error" {
+							if _, isCall := as.Rhs[0].(*ast.CallExpr); isCall {
+								thenB := c.stmts(append(append([]ast.Stmt{}, s.Body.List...), list[1:]...))
+								return fmt.Sprintf("(if negb %s then %s else %s)", c.expr(as.Rhs[0]), thenB, rest())
+							}
+						}
+					}
+				}
+			}
 			return c.fail("if with init statement")
 		}
 		thenB := c.stmts(append(append([]ast.Stmt{}, s.Body.List...), list[1:]...))
@@ -911,6 +991,12 @@ func (c *fctx) stmts(list []ast.Stmt) string {
 		return rest()
 	case *ast.AssignStmt:
 		// x, err := f(...) ; if err != nil { return ..., err }   ==>   match f ... with Some x => rest | None => <the error return> end
+		if len(s.Lhs) == 2 && len(s.Rhs) == 1 {
+			if ta, ok := s.Rhs[0].(*ast.TypeAssertExpr); ok {
+				// v, ok := i.(T): the parameter already has type T in the translation
+				return c.assignTo(s.Lhs[0], c.expr(ta.X), c.assignTo(s.Lhs[1], "true", rest()))
+			}
+		}
 		if len(s.Lhs) == 2 && len(s.Rhs) == 1 && len(list) >= 2 {
 			if e2, ok := s.Lhs[1].(*ast.Ident); ok && e2.Name == "err" {
 				if ifs, ok := list[1].(*ast.IfStmt); ok && ifs.Init == nil && ifs.Else == nil {
@@ -952,7 +1038,8 @@ func (c *fctx) stmts(list []ast.Stmt) string {
 		if call, ok := s.X.(*ast.CallExpr); ok {
 			if f, ok := call.Fun.(*ast.SelectorExpr); ok {
 				if id, ok := f.X.(*ast.Ident); ok {
-					if st := c.k.structOf(c.info.TypeOf(f.X)); st != "" && c.k.spec[st+"."+f.Sel.Name] {
+					fnObj, _ := c.info.Uses[f.Sel].(*types.Func)
+					if st := c.k.structOf(c.info.TypeOf(f.X)); st != "" && fnObj != nil && c.k.fn[fnObj] != "" {
 						if id.Name == c.recvName {
 							c.mutating = true
 						}
@@ -994,20 +1081,37 @@ func assignsReceiver(body *ast.BlockStmt, recv string, mutMethods map[string]boo
 }
 
 func analyseKernels(w *world) string {
-	k := &ktrans{w: w, structs: map[string]*types.Named{}, spec: map[string]bool{}}
+	k := &ktrans{w: w, structs: map[string]*types.Named{}, spec: map[string]bool{}, gname: map[*types.TypeName]string{},
+		fn: map[*types.Func]string{}, assume: map[*types.Func]bool{}}
 	type item struct {
-		spec kernelSpec
-		fn   *types.Func
-		fd   *funcDecl
+		spec  kernelSpec
+		fn    *types.Func
+		fd    *funcDecl
+		gname string // Gallina name of the translation
+		grecv string // Gallina name of the receiver struct ("" for a function)
 	}
 	var items []item
 	for _, sp := range extraStructs {
 		if p := w.all[repoModule+"/"+sp.pkg]; p != nil {
 			if obj := p.Types.Scope().Lookup(sp.recv); obj != nil {
-				k.structs[sp.recv] = obj.Type().(*types.Named)
-				k.order = append(k.order, sp.recv)
+				k.register(obj.Type().(*types.Named))
 			}
 		}
+	}
+	for _, sp := range assumeOK {
+		if p := w.all[repoModule+"/"+sp.pkg]; p != nil {
+			if fn, _ := p.Types.Scope().Lookup(sp.name).(*types.Func); fn != nil {
+				k.assume[fn] = true
+			}
+		}
+	}
+	usedNames := map[string]bool{}
+	modOf := func(pkg string) string {
+		parts := strings.Split(pkg, "/")
+		if parts[0] == "x" && len(parts) > 1 {
+			return parts[1]
+		}
+		return parts[0]
 	}
 	for _, sp := range kernelList {
 		k.spec[sp.recv+"."+sp.name] = true
@@ -1017,13 +1121,19 @@ func analyseKernels(w *world) string {
 			continue
 		}
 		if sp.recv == "" {
+			g := "K__" + sp.name
+			if usedNames[g] {
+				g = "K_" + modOf(sp.pkg) + "_" + sp.name
+			}
+			usedNames[g] = true
 			fn, _ := p.Types.Scope().Lookup(sp.name).(*types.Func)
 			if fn == nil || w.decls[fn] == nil {
 				k.errs = append(k.errs, "function not found: "+sp.name)
-				items = append(items, item{spec: sp})
+				items = append(items, item{spec: sp, gname: g})
 				continue
 			}
-			items = append(items, item{sp, fn, w.decls[fn]})
+			k.fn[fn] = g
+			items = append(items, item{sp, fn, w.decls[fn], g, ""})
 			continue
 		}
 		obj := p.Types.Scope().Lookup(sp.recv)
@@ -1032,10 +1142,9 @@ func analyseKernels(w *world) string {
 			continue
 		}
 		named := obj.Type().(*types.Named)
-		if _, ok := k.structs[sp.recv]; !ok {
-			k.structs[sp.recv] = named
-			k.order = append(k.order, sp.recv)
-		}
+		grecv := k.register(named)
+		g := fmt.Sprintf("K_%s_%s", grecv, sp.name)
+		usedNames[g] = true
 		var fn *types.Func
 		for i := 0; i < named.NumMethods(); i++ {
 			if named.Method(i).Name() == sp.name {
@@ -1044,10 +1153,11 @@ func analyseKernels(w *world) string {
 		}
 		if fn == nil || w.decls[fn] == nil {
 			k.errs = append(k.errs, fmt.Sprintf("method not found: %s.%s", sp.recv, sp.name))
-			items = append(items, item{spec: sp})
+			items = append(items, item{spec: sp, gname: g, grecv: grecv})
 			continue
 		}
-		items = append(items, item{sp, fn, w.decls[fn]})
+		k.fn[fn] = g
+		items = append(items, item{sp, fn, w.decls[fn], g, grecv})
 	}
 	b := &k.out
 	b.WriteString("(* Gen/kernels.v — GENERATED by /verif/translator (kernels.go) from /repo's Go sources; do not edit.\n")
@@ -1059,6 +1169,7 @@ func analyseKernels(w *world) string {
 	b.WriteString("Definition kseq (n : Z) : list Z := map Z.of_nat (seq 0 (Z.to_nat n)).\n(* xs[k]; outside the range (where Go panics) the given zero value *)\nDefinition knth {A} (l : list A) (k : Z) (d : A) : A := if k <? 0 then d else nth (Z.to_nat k) l d.\n")
 	b.WriteString("Definition dec_ceil (a : Z) : Z := let q := Z.quot a PREC in let r := Z.rem a PREC in if r =? 0 then q * PREC else if r <? 0 then q * PREC else (q + 1) * PREC.\n\n")
 	// records
+	emitted := map[string]bool{}
 	for _, name := range k.order {
 		st := k.structs[name].Underlying().(*types.Struct)
 		var fields []string
@@ -1066,7 +1177,7 @@ func analyseKernels(w *world) string {
 		for i := 0; i < st.NumFields(); i++ {
 			f := st.Field(i)
 			gt, _ := k.galType(f.Type())
-			if gt == "" || strings.HasPrefix(gt, "G_") {
+			if gt == "" || (strings.HasPrefix(gt, "G_") && !emitted[gt]) {
 				continue
 			}
 			fields = append(fields, fmt.Sprintf("G_%s_%s : %s", name, f.Name(), gt))
@@ -1077,10 +1188,13 @@ func analyseKernels(w *world) string {
 		for i := 0; i < st.NumFields(); i++ {
 			f := st.Field(i)
 			gt, _ := k.galType(f.Type())
-			if gt == "" || strings.HasPrefix(gt, "G_") {
+			if gt == "" || (strings.HasPrefix(gt, "G_") && !emitted[gt]) {
 				continue
 			}
 			z := "0"
+			if strings.HasPrefix(gt, "G_") {
+				z = gt + "_zero"
+			}
 			if gt == "bool" {
 				z = "false"
 			} else if strings.HasPrefix(gt, "list ") {
@@ -1089,6 +1203,7 @@ func analyseKernels(w *world) string {
 			zs = append(zs, fmt.Sprintf("G_%s_%s := %s", name, f.Name(), z))
 		}
 		fmt.Fprintf(b, "Definition G_%s_zero : G_%s := {| %s |}.\n", name, name, strings.Join(zs, "; "))
+		emitted["G_"+name] = true
 		for _, fn := range fnames {
 			var parts []string
 			for _, g := range fnames {
@@ -1119,13 +1234,13 @@ func analyseKernels(w *world) string {
 	}
 	// order: callees before callers (simple: emit in whitelist order, which lists callees first; setMaxLoss before SetCurrentRound)
 	for _, it := range items {
-		gname := fmt.Sprintf("K_%s_%s", it.spec.recv, it.spec.name)
+		gname := it.gname
 		if it.fd == nil {
 			fmt.Fprintf(b, "(* %s: NOT FOUND in the source *)\nDefinition %s : unit := tt.\n\n", gname, gname)
 			continue
 		}
 		d := it.fd.decl
-		c := &fctx{k: k, info: it.fd.pkg.TypesInfo, pkg: it.fd.pkg, recvType: it.spec.recv}
+		c := &fctx{k: k, info: it.fd.pkg.TypesInfo, pkg: it.fd.pkg, recvType: it.grecv}
 		if d.Recv != nil && len(d.Recv.List[0].Names) > 0 {
 			c.recvName = d.Recv.List[0].Names[0].Name
 		} else if d.Recv != nil {
@@ -1156,11 +1271,22 @@ func analyseKernels(w *world) string {
 		}
 		var params []string
 		if it.spec.recv != "" {
-			params = append(params, fmt.Sprintf("(%s : G_%s)", ident(c.recvName), it.spec.recv))
+			params = append(params, fmt.Sprintf("(%s : G_%s)", ident(c.recvName), it.grecv))
 		}
 		for i := 0; i < sig.Params().Len(); i++ {
 			p := sig.Params().At(i)
 			gt, _ := k.galType(p.Type())
+			if iface, ok := p.Type().Underlying().(*types.Interface); ok && iface.Empty() {
+				// a validator of the params package: `v, ok := i.(T)` fixes the type of i
+				ast.Inspect(d.Body, func(n ast.Node) bool {
+					if ta, ok := n.(*ast.TypeAssertExpr); ok && ta.Type != nil {
+						if id, ok := ta.X.(*ast.Ident); ok && id.Name == p.Name() && gt == "" {
+							gt, _ = k.galType(c.info.TypeOf(ta.Type))
+						}
+					}
+					return true
+				})
+			}
 			if gt == "" {
 				c.fail("parameter %s has an unsupported type", p.Name())
 				gt = "Z"
